@@ -220,14 +220,44 @@ fn host_rules(host: usize, es: &str) -> String {
     }
 }
 
+/// values of the expression language (everything in TOKENS that is not an operator)
+fn value_tokens(reduced: bool) -> Vec<&'static str> {
+    let drop: &[&str] = if reduced { &["2", "3", "a", "b", "zz", "-9223372036854775809", "!!"] } else { &[] };
+    TOKENS.iter().copied().filter(|t| !["+", "-", "*", "/", "%", "@", "^"].contains(t) && !drop.contains(t)).collect()
+}
+fn wf_gen(len: usize, reduced: bool) -> refcfi::wf::WellFormed {
+    use refcfi::wf::{Class, WellFormed};
+    WellFormed::new(
+        vec![
+            Class { tokens: value_tokens(reduced), need: 0, delta: 1 },
+            Class { tokens: vec!["+", "-", "*", "/", "%", "@"], need: 2, delta: -1 },
+            Class { tokens: vec!["^"], need: 1, delta: 0 },
+        ],
+        len,
+        1,
+    )
+}
+
+/// every token sequence up to `maxlen`
 fn expr_space(maxlen: u32) -> Space {
     let k = TOKENS.len() as u64;
-    let n = seq_count(k, maxlen) * HOSTS.len() as u64;
+    let n = seq_count(k, maxlen);
+    expr_space_over("expr", n, move |i| seq_unrank(i, k, maxlen).into_iter().map(|t| TOKENS[t as usize]).collect())
+}
+/// every well-formed (stack-valid) expression of exactly `len` tokens
+fn wf_space(len: usize, reduced: bool) -> Space {
+    let g = wf_gen(len, reduced);
+    let name: &'static str = Box::leak(format!("expr-wellformed-{len}").into_boxed_str());
+    expr_space_over(name, g.count(), move |i| g.unrank(i))
+}
+
+fn expr_space_over(name: &'static str, nseq: u64, seq: impl Fn(u64) -> Vec<&'static str> + Send + Sync + Clone + 'static) -> Space {
+    let n = nseq * HOSTS.len() as u64;
     let gen = move |idx: u64| -> (usize, Vec<&'static str>) {
         let host = (idx % HOSTS.len() as u64) as usize;
-        let toks = seq_unrank(idx / HOSTS.len() as u64, k, maxlen).into_iter().map(|t| TOKENS[t as usize]).collect();
-        (host, toks)
+        (host, seq(idx / HOSTS.len() as u64))
     };
+    let gen2 = gen.clone();
     let run = move |idx: u64, l: &mut Local| {
         let (host, toks) = gen(idx);
         let es = toks.join(" ");
@@ -247,9 +277,9 @@ fn expr_space(maxlen: u32) -> Space {
             l.eval();
             let res = guard(|| sf.walk_frame(&module, &mut m));
             let hosted = if host == 2 { Some("c") } else { None };
-            l.outcome(&outcome_label(&format!("expr in {}", HOSTS[host]), &exp, hosted));
+            l.outcome(&outcome_label(&format!("{name} in {}", HOSTS[host]), &exp, hosted));
             if !matches!(exp, CfiExpect::Malformed) {
-                l.distinct(&("expr", host, rf, readable, &exp));
+                l.distinct(&(host, rf, readable, &exp));
             }
             // an operator counts as exercised when the hosted rule evaluated to a value
             if let CfiExpect::Some { regs, .. } = &exp {
@@ -265,10 +295,10 @@ fn expr_space(maxlen: u32) -> Space {
         }
     };
     let desc = move |idx: u64| {
-        let (host, toks) = gen(idx);
+        let (host, toks) = gen2(idx);
         json!({"host": HOSTS[host], "expr": toks.join(" "), "rules": host_rules(host, &toks.join(" "))})
     };
-    Space::new("expr", n, run, desc)
+    Space::new(name, n, run, desc)
 }
 
 // ---------------------------------------------------------------------------------------------
@@ -508,7 +538,7 @@ fn main() {
         let mut def = CheckDef::new(
             "C06",
             "model_checking",
-            "bounded-exhaustive differential: (expr) every token sequence of length 0..=L over the 26-token alphabet hosted in the .cfa rule, the .ra rule and a general-register rule of a one-record symbol file, each evaluated by the real parser + SymbolFile::walk_frame through a mock FrameWalker on 4 register files (+ the unreadable-memory image when memory is used) and compared (Some/None, cfa, ra, final set/cleared/untouched state of every caller register) with the reference interpreter vh::refcfi; (structure) every INIT rule list (1-2 fragments, or base + 0-1) x two delta records (0..=D fragments each) x 5 address layouts (file order reversed, at the range bounds, below the INIT start, at the range end) with neighbour records before and after, looked up at 10 addresses + below the module base on 2 register files; (amd64-walk_stack) 5^3 register rule choices x 2 cfa x 2 ra rules x 3 callee validity sets through the real walk_stack. distinct_nontrivial = distinct (host, register file, memory image, reference outcome incl. values) for expr; distinct (rule lines in effect, register file) for structure; distinct (validity, reference outcome) for the walk.",
+            "bounded-exhaustive differential: (expr) every token sequence of length 0..=L over the 26-token alphabet (and, beyond L, every WELL-FORMED — stack never underflows, one value left — expression of exactly L+1 tokens over the full alphabet and of L+2 tokens over a reduced value alphabet) hosted in the .cfa rule, the .ra rule and a general-register rule of a one-record symbol file, each evaluated by the real parser + SymbolFile::walk_frame through a mock FrameWalker on 4 register files (+ the unreadable-memory image when memory is used) and compared (Some/None, cfa, ra, final set/cleared/untouched state of every caller register) with the reference interpreter vh::refcfi; (structure) every INIT rule list (1-2 fragments, or base + 0-1) x two delta records (0..=D fragments each) x 5 address layouts (file order reversed, at the range bounds, below the INIT start, at the range end) with neighbour records before and after, looked up at 10 addresses + below the module base on 2 register files; (amd64-walk_stack) 5^3 register rule choices x 2 cfa x 2 ra rules x 3 callee validity sets through the real walk_stack. distinct_nontrivial = distinct (host, register file, memory image, reference outcome incl. values) for expr; distinct (rule lines in effect, register file) for structure; distinct (validity, reference outcome) for the walk.",
         );
         def.assumptions = vec![
             "the reference is written from the module documentation of walker.rs and the property statement; '@' truncates the lhs to a multiple of the rhs, which must be a power of two; zero is not a power of two".into(),
@@ -523,7 +553,10 @@ fn main() {
         def.extra.insert("delta_record_fragments_bound".into(), json!(dlen));
         def.extra.insert("token_alphabet".into(), json!(TOKENS));
         def.extra.insert("structure_fragments".into(), json!(FRAGS));
-        def.spaces = vec![expr_space(maxlen), struct_space(dlen), walk_space()];
+        // beyond the all-sequences bound: only stack-valid expressions, one / two tokens longer
+        let (wf_full, wf_reduced) = ctx.tier.pick((5usize, 6usize), (6, 7));
+        def.extra.insert("wellformed_lengths".into(), json!({"full_value_alphabet": wf_full, "reduced_value_alphabet": wf_reduced, "reduced_values": value_tokens(true)}));
+        def.spaces = vec![expr_space(maxlen), wf_space(wf_full, false), wf_space(wf_reduced, true), struct_space(dlen), walk_space()];
         def.finish = Some(Box::new(|total, extra| {
             // every operator must have been part of a successful evaluation, and both result
             // classes must be populated: otherwise the space is vacuous (a harness error)
